@@ -1,5 +1,6 @@
 import OW.Driver.Proto
 import OW.Driver.Date
+import OW.Driver.Kernel
 namespace OW.Driver
 open OW.Proto
 
@@ -7,6 +8,7 @@ open OW.Proto
 def dispatch (fam : String) (args : Toks) : String :=
   match fam with
   | "DATE" => Date.handle args
+  | "K" => Kernel.handle args
   | _ => "bad-family"
 
 def handleLine (line : String) : String :=
